@@ -55,6 +55,11 @@ def ill_formed(raw, rng):
             out.append(("enum", _put(raw, path, {**sub, "default": "NOPE"})))
         if isinstance(sub, dict) and sub.get("type") in ("record", "error"):
             out.append(("unknown", _put(raw, path, {**sub, "fields": sub["fields"] + [{"name": "zz_undefined", "type": "NoSuchType"}]})))
+            # a simple name that exists only in the null namespace, referred to from inside a namespace
+            out.append(("unknown", {"type": "record", "name": "ZRoot", "fields": [
+                {"name": "zz_null_ns", "type": {"type": "enum", "name": "ZOnlyNull", "symbols": ["A"]}},
+                {"name": "zz_inner", "type": {"type": "record", "name": "zns.ZInner", "fields": [{"name": "bad", "type": "ZOnlyNull"}]}},
+                {"name": "zz_rest", "type": raw if not path else "int"}]}))
             out.append(("redefined", _put(raw, path, {**sub, "fields": sub["fields"] + [
                 {"name": "zz_a", "type": {"type": "fixed", "name": "ZDup", "size": 1}}, {"name": "zz_b", "type": {"type": "fixed", "name": "ZDup", "size": 1}}]})))
             for i, f in enumerate(sub["fields"]):
@@ -191,6 +196,25 @@ def piecewise(raw):
     return outer, shared
 
 
+def piecewise_null_ns(raw):
+    """split off only the null-namespace named types defined at the top level of a record"""
+    if not (isinstance(raw, dict) and raw.get("type") == "record") or "." in raw["name"] or raw.get("namespace"):
+        return None
+    shared = {}
+    outer = copy.deepcopy(raw)
+    moved = 0
+    for f in outer["fields"]:
+        t = f["type"]
+        if isinstance(t, dict) and t.get("type") in ("enum", "fixed") and "." not in t["name"] and not t.get("namespace"):
+            try:
+                parse_schema(copy.deepcopy(t), shared)
+            except Exception:
+                return None
+            f["type"] = t["name"]
+            moved += 1
+    return (outer, shared) if moved else None
+
+
 def run_c12(tier, seed):
     res = Result("C12", tier, seed)
     rng = random.Random(seed)
@@ -215,6 +239,10 @@ def run_c12(tier, seed):
         if pw is not None:
             outer, shared = pw
             forms["piecewise"] = lambda: parse_schema(copy.deepcopy(outer), dict(shared))
+        pw2 = piecewise_null_ns(raw)
+        if pw2 is not None:
+            outer2, shared2 = pw2
+            forms["piecewise_null_namespace_piece"] = lambda: parse_schema(copy.deepcopy(outer2), dict(shared2))
         results = {}
         for fname, mk in forms.items():
             results[fname] = {}
@@ -406,10 +434,11 @@ def run_c14(tier, seed):
             texts.append(SS.pcf_raw(raw))
         except Exception:
             pass
+    texts += ["a" * 63 + "é", "é" * 64, "漢字" * 40, "x" * 64 + "\U0001d11e" * 3, ("ab€" * 50) + "z", "é" + "a" * 200]
     n = 300 if tier == "quick" else 5000
     for _ in range(n):
         texts.append("".join(chr(rng.choice([rng.randrange(32, 127), rng.randrange(0x80, 0x800), rng.randrange(0x800, 0xD800), rng.randrange(0x10000, 0x10FFFF)]))
-                             for _ in range(rng.randrange(0, 40))))
+                             for _ in range(rng.choice([rng.randrange(0, 40), rng.randrange(60, 140), rng.randrange(250, 270)]))))
     for t in texts:
         res.case("crc64_avro", t, nontrivial=len(t) > 0, sample={"text": short(t, 60)})
         got = fingerprint(t, "CRC-64-AVRO")
